@@ -650,6 +650,15 @@ func c10Inotify(cs *Case) {
 	dataA, _ := os.ReadFile(target)
 	must(cache.WriteSpec(cloneSpec(specB), name))
 	dataB, _ := os.ReadFile(target)
+	// a second name, written at the same time through a cache of its own (whatever two
+	// writers share - a directory, a process - their files are theirs)
+	otherName := "zz-other." + enc
+	specC, specD := c10Spec("C", !big), c10Spec("D", big)
+	specC.Kind, specD.Kind = "other.org/dev", "other.org/dev"
+	must(cache.WriteSpec(cloneSpec(specC), otherName))
+	dataC, _ := os.ReadFile(filepath.Join(dir, otherName))
+	must(cache.WriteSpec(cloneSpec(specD), otherName))
+	dataD, _ := os.ReadFile(filepath.Join(dir, otherName))
 	fd, err := unix.InotifyInit1(unix.IN_CLOEXEC)
 	if err != nil {
 		c.Inconclusive("no-inotify")
@@ -769,9 +778,11 @@ func c10Inotify(cs *Case) {
 						continue // replaced between listing and opening: fine
 					}
 					switch {
-					case bytes.Equal(data, dataA):
+					case e.Name() == otherName && (bytes.Equal(data, dataC) || bytes.Equal(data, dataD)):
+						observations[0].Add(1)
+					case e.Name() != otherName && bytes.Equal(data, dataA):
 						observations[1].Add(1)
-					case bytes.Equal(data, dataB):
+					case e.Name() != otherName && bytes.Equal(data, dataB):
 						observations[2].Add(1)
 					default:
 						rbMu.Lock()
@@ -789,18 +800,25 @@ func c10Inotify(cs *Case) {
 	n := c.pick(600, 12000)
 	var ww sync.WaitGroup
 	sharedCache, _ := cdi.NewCache(cdi.WithSpecDirs(dir), cdi.WithAutoRefresh(false))
-	for w := 0; w < 3; w++ {
+	for w := 0; w < 4; w++ {
 		ww.Add(1)
 		go func(w int) {
 			defer ww.Done()
 			wc := sharedCache
-			if w == 2 {
+			if w >= 2 {
 				wc, _ = cdi.NewCache(cdi.WithSpecDirs(dir), cdi.WithAutoRefresh(false))
 			}
 			for i := 0; i < n/3; i++ {
-				s := specA
+				s, name := specA, name
 				if (i+w)%2 == 0 {
 					s = specB
+				}
+				if w == 3 {
+					// (the fourth writer has a name and a cache of its own)
+					s, name = specC, otherName
+					if i%2 == 0 {
+						s = specD
+					}
 				}
 				if err := wc.WriteSpec(cloneSpec(s), name); err != nil {
 					rbMu.Lock()
